@@ -197,4 +197,52 @@ PROPS = {
             "ASan run has the tracker off",
         ],
     ),
+    "C22": dict(
+        gen=dict(script="modelgen.py", args=["--family", "dag,cflow"]),
+        steps=[
+            native("modelcheck", ["c22"], shards=4, extra={Q: {"n": 600}, T: {"n": 16000}}),
+            tsan("modelcheck", ["c22"], tiers=(T,), shards=4, extra={T: {"n": 400}}, timeout={T: 7200}),
+        ],
+        floor={Q: 100, T: 2000},
+        parallel_steps=1,
+        assumptions=["each call uses its own single-thread pool so that results are comparable bit-exactly with the sequential run",
+                     "a group of threads that does not finish within the watchdog makes the run inconclusive, never a violation"],
+    ),
+    "C16": dict(steps=[native("gemmcheck", ["f32"], shards=8),
+                       asan("gemmcheck", ["f32"], shards=4, tiers=(T,), extra={T: {"n": 60000}}),
+                       miri("gemmcheck", ["f32"], shards=4, extra={Q: {"n": 100}, T: {"n": 3000}}, timeout={Q: 1500, T: 6 * 3600})],
+                floor={Q: 3000, T: 300000}, parallel_steps=3,
+                assumptions=["the f64 reference and the forward bound 4(K+2)eps*sum|a_i b_i| are the ground truth",
+                             "guard pages see every access outside an operand; ASan only instrumented heap accesses; Miri runs the generic kernel only"]),
+    "C17": dict(steps=[native("gemmcheck", ["int8"], shards=8),
+                       asan("gemmcheck", ["int8"], shards=4, tiers=(T,), extra={T: {"n": 40000}})],
+                floor={Q: 3000, T: 300000},
+                assumptions=["exact i64 arithmetic is the reference", "a full-range result on a kernel reporting may_saturate() is not judged"]),
+    "C37": dict(steps=[native("gemmcheck", ["bq"], shards=8),
+                       asan("gemmcheck", ["bq"], shards=4, tiers=(T,), extra={T: {"n": 40000}})],
+                floor={Q: 1500, T: 150000},
+                assumptions=["int8-activation bound = 0.5*(block max|a|/127)*|w| per term, as implied by rten's per-block quantisation"]),
+    "C38": dict(
+        steps=[
+            native("loadfuzz", ["c38"], shards=4, extra={T: {"n": 2000000}}, timeout={Q: 900, T: 4 * 3600}),
+            asan("loadfuzz", ["c38"], shards=4, extra={Q: {"n": 1500}, T: {"n": 100000}}, timeout={Q: 1500, T: 4 * 3600}),
+            miri("loadfuzz", ["c38"], shards=2, tiers=(T,), extra={T: {"n": 600}}, timeout={T: 6 * 3600}),
+        ],
+        floor={Q: 1000, T: 100000}, parallel_steps=2,
+        assumptions=["the counting ReadValue/BufRead shims do not change decoder behaviour",
+                     "the shadow schema table equals onnx.rs (self-tested on seeds and by trace equality)"]),
+    "C34": dict(
+        steps=[native("loadfuzz", ["c34"], shards=4),
+               asan("loadfuzz", ["c34"], shards=2, tiers=(T,), extra={T: {"n": 100000}})],
+        floor={Q: 1000, T: 100000},
+        assumptions=["naive::Arr is the reference for source layouts", "spec-built npy files follow the NumPy format document"]),
+    "C35": dict(steps=[native("imgcheck", ["c35"], shards=4)],
+        floor={Q: 100000, T: 2000000},
+        assumptions=["hull containment and convexity are decided in exact i128 arithmetic for integer coordinates |v|<=64 and in f64 with tolerance 5e-3*max|coord| otherwise; min_area_rect with 1e-3*(1+M) / 6e-3*M; simplification with epsilon + 1e-4*M + 1e-3*epsilon",
+                     "collinear hull vertices and zero-width folds are accepted as convex; documented panics are 'no result'"]),
+    "C36": dict(steps=[native("imgcheck", ["c36"], shards=4, timeout={Q: 600, T: 3600})],
+        floor={Q: 50000, T: 1000000},
+        assumptions=["'adjacent' is read as 8-adjacent to background or the image edge; in External mode a contour is required only for components not enclosed by another component",
+                     "shape bounds: fill_rect = the rect; stroke_rect = rect grown by the stroke width; lines/polygons = inclusive vertex bounding box grown by the width when width > 1",
+                     "coordinates with |c| > 2^30-8 are run on guard pages but bounds disagreements are only counted; index panics are 'no result'"]),
 }
